@@ -1,1 +1,61 @@
-// placeholder
+// Included at the end of abra_core/src/translate_bytecode.rs under cfg(all(kani, abra_verif)).
+mod verif {
+    #![allow(unused, dead_code, clippy::all)]
+    use super::*;
+
+    // C32 (b): create_source_location_tables followed by the VM's lookup rule gives every
+    // instruction its own (file, line, function) triple.  <= 4 lines (labels interleaved),
+    // symbolic triples.
+    fn lookup(table: &Vec<(BytecodeIndex, u32)>, pc: u32) -> u32 {
+        // same rule as vm::pc_to_error_location (checked against the real one in c32_pc_to_error_location)
+        let idx = match table.binary_search_by_key(&pc, |p| p.0) {
+            Ok(i) | Err(i) => i,
+        };
+        let idx = if idx >= 1 { idx - 1 } else { idx };
+        table[idx].1
+    }
+
+    #[kani::proof]
+    #[kani::unwind(7)]
+    fn c32_source_tables_roundtrip() {
+        let mut st = TranslatorState::default();
+        let trip: [(u16, u8, u8); 4] = kani::any();
+        let label_at: usize = kani::any();
+        kani::assume(label_at <= 4);
+        let n: usize = kani::any();
+        kani::assume(n >= 1 && n <= 4);
+        let mut k = 0;
+        while k < 4 {
+            if k == label_at {
+                st.lines.push(Line::Label(String::new()));
+            }
+            if k < n {
+                st.lines.push(Line::Instr {
+                    instr: Instr::Pop,
+                    lineno: trip[k].0 as usize,
+                    file_id: trip[k].1 as u32,
+                    func_id: trip[k].2 as u32,
+                });
+            }
+            k += 1;
+        }
+        let tr = std::mem::MaybeUninit::<Translator>::uninit();
+        let tr_ref: &Translator = unsafe { &*tr.as_ptr() }; // `self` is not used by the function
+        tr_ref.create_source_location_tables(&mut st);
+        let mut i = 0;
+        while i < 4 {
+            if i < n {
+                // instruction i fails => the VM looks up pc = i + 1
+                let pc = (i + 1) as u32;
+                assert!(lookup(&st.lineno_table, pc) == trip[i].0 as u32, "line of instruction i");
+                assert!(lookup(&st.filename_table, pc) == trip[i].1 as u32, "file of instruction i");
+                assert!(lookup(&st.function_name_table, pc) == trip[i].2 as u32, "function of instruction i");
+            }
+            i += 1;
+        }
+        kani::cover!(n == 4 && trip[0].0 != trip[1].0 && trip[1].0 == trip[2].0 && trip[2].0 != trip[3].0, "req: runs of equal and different lines");
+        std::mem::forget(st);
+    }
+
+    include!(concat!(env!("ABRA_VERIF_HARNESS_DIR"), "/translate_playback.rs"));
+}
